@@ -31,6 +31,11 @@ pub struct HybCfg {
     pub blocks: usize,
     pub flushers: usize,
     pub lossy: bool,
+    /// clean block threshold / reclaimers of the block engine
+    pub thr: usize,
+    pub reclaimers: usize,
+    /// "hyb" or "blk" (same executor; `blk` traces carry per-key loads and go to the C09 driver)
+    pub domain: String,
     pub hmode: HMode,
     pub keys: u64,
 }
@@ -38,7 +43,8 @@ pub struct HybCfg {
 impl HybCfg {
     pub fn line(&self) -> String {
         format!(
-            "cfg domain=hyb policy={} foc={} tomb={} memcap={} memalgo={} blocks={} flushers={} lossy={} hmode={} keys={}",
+            "cfg domain={} policy={} foc={} tomb={} memcap={} memalgo={} blocks={} flushers={} lossy={} thr={} reclaimers={} hmode={} keys={}",
+            self.domain,
             if self.woi { "woi" } else { "woe" },
             self.foc as u8,
             self.tomb as u8,
@@ -47,6 +53,8 @@ impl HybCfg {
             self.blocks,
             self.flushers,
             self.lossy as u8,
+            self.thr,
+            self.reclaimers,
             self.hmode.show(),
             self.keys
         )
@@ -63,6 +71,9 @@ impl HybCfg {
             blocks: g("blocks", "8").parse().unwrap_or(8),
             flushers: g("flushers", "1").parse().unwrap_or(1),
             lossy: g("lossy", "0") == "1",
+            thr: g("thr", "1").parse().unwrap_or(1),
+            reclaimers: g("reclaimers", "1").parse().unwrap_or(1),
+            domain: g("domain", "hyb"),
             hmode: HMode::parse(&g("hmode", "id")),
             keys: g("keys", "4").parse().unwrap_or(4),
         }
@@ -173,6 +184,10 @@ impl HExec {
 
     pub fn open(&mut self) {
         let cfg = self.cfg.clone();
+        if cfg.domain == "blk" && self.cache.is_none() && self.next_ver == 1 {
+            // events of earlier cases
+            let _ = foyer_storage::verif::verif_events::take();
+        }
         let sim = self.sim.clone();
         let switch = self.switch.clone();
         let path = self.dir.path().to_path_buf();
@@ -184,11 +199,11 @@ impl HExec {
                 .with_block_size(BLOCK)
                 .with_blob_index_size(PAGE)
                 .with_flushers(cfg.flushers)
-                .with_reclaimers(1)
+                .with_reclaimers(cfg.reclaimers)
                 .with_indexer_shards(2)
                 .with_recover_concurrency(2)
                 .with_buffer_pool_size(2 * 1024 * 1024 * cfg.flushers)
-                .with_clean_block_threshold(1)
+                .with_clean_block_threshold(cfg.thr)
                 .with_tombstone_log(cfg.tomb)
                 .with_flush_switch(switch);
             let b = HybridCacheBuilder::new()
@@ -435,7 +450,10 @@ impl HExec {
                 format!("{n}:{k}:{v}")
             })
             .collect();
-        let wlog: Vec<String> = wl.iter().map(|w| format!("{}:{}:{}", w.partition, w.offset, w.data.len())).collect();
+        let wlog: Vec<String> = wl
+            .iter()
+            .map(|w| format!("{}:{}:{}{}", w.partition, w.offset, w.data.len(), if w.data.iter().all(|b| *b == 0) { ":z" } else { "" }))
+            .collect();
         let mem: Vec<String> = (0..self.cfg.keys).filter(|k| cache.memory().contains(k)).map(|k| k.to_string()).collect();
         let disk: Vec<String> = (0..self.cfg.keys).filter(|k| cache.storage().may_contains(k)).map(|k| k.to_string()).collect();
         let _ = write!(
@@ -447,12 +465,49 @@ impl HExec {
             show(disk),
             self.sim.pending_ids().len()
         );
+        if self.cfg.domain == "blk" {
+            // the block manager's own transitions during this operation (verif hook)
+            let evs: Vec<String> = foyer_storage::verif::verif_events::take()
+                .into_iter()
+                .map(|(e, b, c, ev, _w, r, wt)| format!("{e}:{b}:{c}:{ev}:{r}:{wt}"))
+                .collect();
+            let _ = write!(line, " bev={}", show(evs));
+        }
+        if self.cfg.domain == "blk" && !self.held && self.sim.pending_ids().is_empty() && !self.sim.st.lock().gated {
+            // what the disk tier delivers for every key (no memory population)
+            let mut loads = vec![];
+            for k in 0..self.cfg.keys {
+                let c = cache.clone();
+                let r = self.rt.block_on(async move { c.storage().load(&k).await });
+                loads.push(match r {
+                    Ok(foyer_storage::Load::Entry { key, value, .. }) => {
+                        let (vk, ver) = parse_value(&value);
+                        if key != k || vk != k { format!("{k}:foreign") } else if !value_intact(&value) { format!("{k}:damaged") } else { format!("{k}:{ver}") }
+                    }
+                    Ok(foyer_storage::Load::Piece { piece, .. }) => format!("{k}:q{}", parse_value(piece.value()).1),
+                    Ok(foyer_storage::Load::Miss) => format!("{k}:miss"),
+                    Ok(foyer_storage::Load::Throttled) => format!("{k}:throttled"),
+                    Err(_) => format!("{k}:err"),
+                });
+            }
+            let disk2: Vec<String> = (0..self.cfg.keys).filter(|k| cache.storage().may_contains(k)).map(|k| k.to_string()).collect();
+            let _ = write!(line, " loads={} disk2={}", show(loads), show(disk2));
+        }
         crate::CUR_OP.lock().clear();
         let mut t = crate::CUR_TRACE.lock();
         t.push_str(&line);
         t.push('\n');
         line
     }
+}
+
+/// does the value still carry the padding `make_value` gave it?
+pub fn value_intact(v: &[u8]) -> bool {
+    if v.len() < 16 {
+        return false;
+    }
+    let ver = u64::from_le_bytes(v[8..16].try_into().unwrap());
+    v[16..].iter().all(|b| *b == (ver % 251) as u8)
 }
 
 fn src_name(s: Source) -> &'static str {
@@ -470,9 +525,41 @@ pub struct GenOpts {
     pub reopen: bool,
     /// only colliding hashers (constant / mod 2)
     pub collide: bool,
+    /// C09: tiny device, sustained inserts (several device capacities), 1-3 flushers, 1-2 reclaimers
+    pub overload: bool,
+    /// C09: no removes (the default pickers must then reclaim oldest-filled first)
+    pub nodel: bool,
 }
 
 pub fn gen_cfg(rng: &mut Rng, o: GenOpts) -> HybCfg {
+    if o.overload {
+        // configurations the engine accepts without warning: flushers + threshold <= blocks / 2
+        let (blocks, flushers, thr) = *rng.pick(&[
+            (4usize, 1usize, 1usize),
+            (5, 1, 1),
+            (6, 1, 1),
+            (6, 2, 1),
+            (6, 1, 2),
+            (8, 1, 1),
+            (8, 2, 2),
+            (8, 3, 1),
+        ]);
+        return HybCfg {
+            woi: true,
+            foc: true,
+            tomb: rng.chance(1, 2),
+            memcap: rng.range(1, 3) as usize,
+            lru: false,
+            blocks,
+            flushers,
+            lossy: true,
+            thr,
+            reclaimers: rng.range(1, 2) as usize,
+            domain: "blk".into(),
+            hmode: HMode::Id,
+            keys: rng.range(4, 9),
+        };
+    }
     let lossy = rng.chance(1, 4);
     HybCfg {
         woi: rng.chance(1, 2),
@@ -486,6 +573,9 @@ pub fn gen_cfg(rng: &mut Rng, o: GenOpts) -> HybCfg {
         blocks: if lossy { *rng.pick(&[4usize, 6, 8]) } else { 64 },
         flushers: if lossy { 1 } else { *rng.pick(&[1usize, 1, 2]) },
         lossy,
+        thr: 1,
+        reclaimers: 1,
+        domain: "hyb".into(),
         hmode: match (o.collide, rng.below(6)) {
             (true, 0..=2) | (false, 0) => HMode::Const(7),
             (true, _) | (false, 1) => HMode::Mod(2),
@@ -498,6 +588,33 @@ pub fn gen_cfg(rng: &mut Rng, o: GenOpts) -> HybCfg {
 pub fn gen_op(rng: &mut Rng, ex: &HExec, o: GenOpts) -> HOp {
     let keys = ex.cfg.keys;
     let big = o.big;
+    if o.overload {
+        loop {
+            let op = match rng.below(100) {
+                0..=54 => HOp::Ins { k: rng.below(keys), sz: *rng.pick(&['s', 's', 'm', 'n', 'l', 'l']), loc: '-' },
+                55..=64 => HOp::WIns { k: rng.below(keys), sz: 's', force: true },
+                65..=69 => {
+                    if o.nodel {
+                        HOp::Wait
+                    } else {
+                        HOp::Rm { k: rng.below(keys) }
+                    }
+                }
+                70..=76 => HOp::Get { k: rng.below(keys) },
+                77..=80 => HOp::Wait,
+                81..=84 => HOp::Hold,
+                85..=88 => HOp::Unhold,
+                89..=91 => HOp::Gate,
+                92..=95 => HOp::ReleaseBatch,
+                96..=97 => HOp::ReleaseAll,
+                98 => HOp::Evict,
+                _ => HOp::Reopen,
+            };
+            if ex.enabled(&op) {
+                return op;
+            }
+        }
+    }
     loop {
         if o.reopen && rng.chance(1, 12) && ex.enabled(&HOp::Reopen) {
             return HOp::Reopen;
@@ -626,6 +743,8 @@ pub fn main(args: &Args) -> i32 {
         big: arg_u64(args, "big", 0) == 1,
         reopen: arg_u64(args, "reopen", 0) == 1,
         collide: arg_u64(args, "collide", 0) == 1,
+        overload: arg_u64(args, "overload", 0) == 1,
+        nodel: arg_u64(args, "nodel", 0) == 1,
     };
     let mut rng = Rng::new(seed ^ 0x4B1D);
     for _ in 0..cases {
